@@ -4834,6 +4834,11 @@ func (l *Lowerer) evalConstantIntExpr(expr parser.Expr) (ir.ScalarKind, int64, e
 			if err != nil {
 				return 0, 0, err
 			}
+			if kind == ir.ScalarUint {
+				// the complement of a u32 is a u32: keep it in 32 bits so that
+				// later unsigned arithmetic on it (/, >>, comparisons) is right
+				return kind, int64(^uint32(val)), nil
+			}
 			return kind, ^val, nil
 		default:
 			return 0, 0, fmt.Errorf("unsupported unary operator in constant expression: %v", e.Op)
